@@ -377,6 +377,7 @@ pub struct Harness<'a> {
     pub model: Model,
     next_ts: u64,
     tag: u32,
+    trace_order_bad: bool,
     pub stats: Stats,
     pub probes: Probes,
     held: HashMap<u8, Held>,
@@ -462,6 +463,7 @@ impl<'a> Harness<'a> {
             model: Model::new(),
             next_ts: 1,
             tag: 0,
+            trace_order_bad: false,
             stats: Stats::default(),
             probes,
             held: HashMap::new(),
@@ -659,6 +661,46 @@ impl<'a> Harness<'a> {
                     eprintln!("     L{li} [{}..{}] keys#[{}..{}] ts {}..{} {}", gens::show(&m.first_key), gens::show(&m.last_key), rank(&m.first_key), rank(&m.last_key), m.smallest_timestamp, m.biggest_timestamp, &setsum::Setsum::from_digest(m.setsum).hexdigest()[..8]);
                 }
             }
+            // level-order invariant: for every key, everything in a deeper level is older than
+            // everything in a shallower level (levels >= 1)
+            {
+                let mut per_key: BTreeMap<Vec<u8>, Vec<(usize, u64, String)>> = BTreeMap::new();
+                for (li, l) in after.iter().enumerate().skip(1) {
+                    for m in l.iter() {
+                        if let Ok(es) = dump_sst(&sst_path(&self.root, m)) {
+                            for e in es {
+                                per_key.entry(e.0.clone()).or_default().push((li, e.1, setsum::Setsum::from_digest(m.setsum).hexdigest()[..8].to_string()));
+                            }
+                        }
+                    }
+                }
+                let was_bad = self.trace_order_bad;
+                let mut bad = None;
+                for (k, vs) in per_key.iter() {
+                    for a in vs.iter() {
+                        for b in vs.iter() {
+                            if a.0 < b.0 && a.1 < b.1 && bad.is_none() {
+                                bad = Some(format!("key #{}: L{} {} holds ts {} but deeper L{} {} holds newer ts {}", rank(k), a.0, a.2, a.1, b.0, b.2, b.1));
+                            }
+                        }
+                    }
+                }
+                if let Some(b) = &bad {
+                    if !was_bad {
+                        eprintln!("  ## LEVEL ORDER FIRST BROKEN BY THIS STEP: {b}");
+                        let names = |l: &[Vec<SstMetadata>]| -> BTreeSet<String> { l.iter().enumerate().flat_map(|(li, v)| v.iter().map(move |m| format!("L{li}:{}", &setsum::Setsum::from_digest(m.setsum).hexdigest()[..8]))).collect() };
+                        let (nb, na) = (names(&shape_before), names(&after));
+                        eprintln!("     inputs  {:?}", nb.difference(&na).collect::<Vec<_>>());
+                        eprintln!("     outputs {:?}", na.difference(&nb).collect::<Vec<_>>());
+                        for (li, l) in shape_before.iter().enumerate() {
+                            for m in l.iter() {
+                                eprintln!("     before L{li} keys#[{}..{}] ts {}..{} {}", rank(&m.first_key), rank(&m.last_key), m.smallest_timestamp, m.biggest_timestamp, &setsum::Setsum::from_digest(m.setsum).hexdigest()[..8]);
+                            }
+                        }
+                    }
+                }
+                self.trace_order_bad = bad.is_some();
+            }
             if let Err(f) = self.check_reads("step") {
                 eprintln!("  !! reads wrong after this step: {}", f.message);
                 // every version of every wrongly read key, by level and file
@@ -686,6 +728,7 @@ impl<'a> Harness<'a> {
         if let (Some(_), Some(bd)) = (before, before_dump) {
             let ad = self.dump_levels(&after)?;
             self.check_conservation(&bd, &ad, is_gc, &shape_before, &after)?;
+            self.check_level_order(&after)?;
         }
         Ok(true)
     }
@@ -1144,6 +1187,43 @@ impl<'a> Harness<'a> {
         }
         vcore::refcursor::sort_entries(&mut all);
         Ok(all)
+    }
+
+    /// What reads at ANY timestamp rely on: within levels >= 1 every version of a key in a deeper
+    /// level is older than every version of that key in a shallower level, and the files of one
+    /// level hold a key's versions newest first in file order.  (Level 0 files may overlap freely.)
+    /// Not asserted in strict replays: there the R-D exclusion is off and a reopen may have
+    /// mis-levelled files (known finding).
+    fn check_level_order(&mut self, levels: &[Vec<SstMetadata>]) -> Result<(), Fail> {
+        if self.ctx.strict {
+            return Ok(());
+        }
+        // key -> (level, min ts, max ts)
+        let mut seen: BTreeMap<Vec<u8>, Vec<(usize, u64, u64)>> = BTreeMap::new();
+        for (li, l) in levels.iter().enumerate().skip(1) {
+            let mut level: BTreeMap<Vec<u8>, (u64, u64)> = BTreeMap::new();
+            for md in l.iter() {
+                for e in dump_sst(&sst_path(&self.root, md)).map_err(|e| fail("conserve:unreadable-sst", e))? {
+                    let r = level.entry(e.0).or_insert((e.1, e.1));
+                    r.0 = r.0.min(e.1);
+                    r.1 = r.1.max(e.1);
+                }
+            }
+            for (k, (lo, hi)) in level {
+                seen.entry(k).or_default().push((li, lo, hi));
+            }
+        }
+        for (k, v) in seen.iter() {
+            for w in v.windows(2) {
+                if w[0].1 <= w[1].2 {
+                    return Err(fail(
+                        "order:newer-version-below-older",
+                        format!("after a compaction step key {} has a version at timestamp {} in level {} but a version at timestamp {} in the deeper level {}: reads consult the shallower level first (tree {})", gens::show(k), w[0].1, w[0].0, w[1].2, w[1].0, self.shape()),
+                    ));
+                }
+            }
+        }
+        Ok(())
     }
 
     fn check_conservation(&mut self, before: &[Entry], after: &[Entry], is_gc: bool, lb: &[Vec<SstMetadata>], la: &[Vec<SstMetadata>]) -> Result<(), Fail> {
